@@ -82,7 +82,13 @@ def compare(ctx, g, h, perm, prune, o1, o2):
             return
     # strategies: equal as sets after un-renaming, on states whose competing reported values are
     # pairwise equal or separated by > 10 thresholds in BOTH runs
+    ambiguous_reach = False
     for idx, vec in ((1, 3), (0, 2)):
+        if idx == 0 and ambiguous_reach:
+            # a near-tie split the reachability strategies differently in the two presentations (listed
+            # C04 finding); the permitted action sets of the reward phase then differ legitimately
+            ctx.count("final_strategies_skipped_after_ambiguous_reach_tie")
+            break
         for s in range(n):
             s1, s2 = r1[idx][s], r2[idx][perm[s]]
             if (s1 is None) != (s2 is None):
@@ -104,6 +110,8 @@ def compare(ctx, g, h, perm, prune, o1, o2):
                                    "original": s1, "transformed": s2, "values": vals1})
                     return
                 ctx.count("ambiguous_near_tie_skipped")
+                if idx == 1:
+                    ambiguous_reach = True
             elif idx == 1 and [rename(x) for x in s1] != s2 and False:
                 pass
 
@@ -155,6 +163,8 @@ def run(ctx, model=None):
             check_case(ctx, g, rng, model)
     for k in range(10 if ctx.quick() else 150):
         check_case(ctx, gen.tiny_reach_game(rng), rng, model)
+    for k in range(25 if ctx.quick() else 300):
+        check_case(ctx, gen.decimal_sum_game(rng), rng, model)
     N = 200 if ctx.quick() else 5000
     for k in range(N):
         g = gen.slow_cycle_game(rng) if k % 7 == 0 else gen.stopping_game(rng)
